@@ -37,6 +37,12 @@ def gen_params(rng, idx, tier):
         {'t': ['B', 'C'], 'u': ['X'], 'u_file': None, 'invocations': 2, 'iterations': 1, 'crits': 1, 'profile': False,
          'text_fields': {'variable_values': [u'a\u2028b\x0cc'], 'input_sizes': [u'1\x0b2\x85\x1c']},
          'long_name': [255, True]},
+        # falsy but valid values in the run's variables (input size 0, variable value false), a tab inside
+        # the extra arguments, a ValidationLog suite (boolean Success measurements) and lines in the
+        # 14-column layout of older versions
+        {'t': ['B', 'C'], 'u': ['X', 'Y'], 'u_file': None, 'invocations': 2, 'iterations': 1, 'crits': 1,
+         'profile': False, 'text_fields': {'input_sizes': [0], 'variable_values': [False]},
+         'bench_args': {'B': '--size\t5', 'C': '0'}, 'u_adapter': 'ValidationLog', 'old_layout': True},
         # the data file is in another directory than the working directory, and a relative link
         {'t': ['B', 'C', 'D'], 'u': ['X', 'Y'], 'u_file': None, 'invocations': 2, 'iterations': 2, 'crits': 0,
          'profile': False, 'data_dir': 'out', 'link': 'relative'},
@@ -73,8 +79,11 @@ def gen_params(rng, idx, tier):
             'crits': 0 if profile else rng.randint(0, 2), 'profile': profile,
             'damaged': [rng.randint(1, 5), rng.randint(0, 10 ** 6)] if rng.random() < 0.35 else None,
             'text_fields': rng.choice([None, None, {'variable_values': [u'v\u2029w']}, {'input_sizes': [u'\x1dz\x1e']},
+                                       {'input_sizes': [0]}, {'variable_values': [0.0]}, {'variable_values': ['0'], 'input_sizes': [False]},
                                        {'variable_values': [u'p\x0cq'], 'input_sizes': [u'3\u0085']}]),
             'long_name': rng.choice([None, None, None, [255, False], [243, False], [250, True]]),
+            'bench_args': rng.choice([None, None, {'B': 'a\tb'}, {'C': '-x\t-y\t1'}]),
+            'old_layout': rng.random() < 0.3,
             'link': rng.choice([None, None, 'other_fs', 'same_fs', 'relative']),
             'data_dir': rng.choice([None, None, 'out'])}
 
@@ -171,12 +180,13 @@ class World(object):
         self.shm = shm
         if params.get('data_dir'):
             os.makedirs(os.path.join(wd, params['data_dir']))
-        second = {'benchmarks': params['u'], 'data_file': params['u_file']} if params['u'] else None
+        second = {'benchmarks': params['u'], 'data_file': params['u_file'],
+                  'adapter': params.get('u_adapter', 'RebenchLog')} if params['u'] else None
         third = {'benchmarks': params['v'], 'data_file': params.get('v_file')} if params.get('v') else None
         self.scn = dd.Scenario(wd, params['t'], params['invocations'], params['iterations'], params['crits'],
                                data_file=(params['data_dir'] + '/' if params.get('data_dir') else '') + base_name(params),
                                second_exp=second, profile=params['profile'], third_exp=third,
-                               text_fields=params.get('text_fields'))
+                               text_fields=params.get('text_fields'), bench_args=params.get('bench_args'))
         r = self.scn.run(filters=['all'])
         self.problem = None
         if r.crash or r.exit not in (0, 1):
@@ -193,6 +203,19 @@ class World(object):
         self.base_session = self.scn.session
         if params.get('damaged'):
             self.inject_damaged(params['damaged'])
+        if params.get('old_layout'):
+            # the lines of the last run as an older ReBench wrote them: 14 columns, no machine column
+            # (the loader reads the first five columns and the last one)
+            last = self.keys[-1]
+            f = file_of(params, last)
+            out = []
+            for d in dd.parse_file(self.old[f]):
+                line = self.old[f][d['start']:d['end']]
+                if d['kind'] == 'meas' and (d['exe'], d['bench']) == (last[2], last[3]):
+                    cols = line.rstrip('\n').split('\t')
+                    line = '\t'.join(cols[:-2] + cols[-1:]) + '\n'
+                out.append(line)
+            self.old[f] = ''.join(out)
         # the first data file is a symbolic link (results kept elsewhere): target on the same file
         # system, given relatively, or on another file system
         self.link = None
@@ -308,7 +331,7 @@ class World(object):
         def key_of_run(obj):
             toks = obj['cmdline'].split()
             exe = {'exe': 'E', 'exe2': 'E2', 'exe3': 'E3'}.get(toks[0].rsplit('/', 1)[-1], '?')
-            return self.key_of(exe, toks[-1])
+            return self.key_of(exe, toks[2])     # exe, h/h2/h3, benchmark, extra arguments
         bp, rp = dd.payload_tables(dd.parse_file(self.old[f]), key_of_bench, key_of_run)
         pj = sorted(set(d['json'] for d in dd.parse_file(self.old[f]) if d['kind'] == 'prof')) if self.params['profile'] else None
         op = {'op': 'c14.rewrite', 'text': self.old[f], 'hdr': dd.HDR, 'lvariant': LV, 'rvariant': RV, 'profile_json': pj,
@@ -523,7 +546,8 @@ def judge_selection(acc, world, obs, model_answers):
                           n_old - n_new if f in rewritten else n_old)
                 snap, want = strip_other(snap), strip_other(want)
             if snap != want:
-                what = 'missing' if snap is None else 'header_only' if (
+                what = 'missing' if snap is None else 'bool_value_lines_missing' if (
+                    only_bool_lines_missing(want, snap)) else 'header_only' if (
                     want.replace(dd.HDR + '\n', '', 1) == snap) else 'fewer_lines' if (
                     snap is not None and len(snap) < len(want)) else 'other'
                 acc.oracle_fail('exact_filter', inp,
@@ -680,6 +704,18 @@ def judge_multi(acc, world, obs, ans):
                          {'files': got}, {'files': want_tags}, ['RB.Rewrite.c14_rewrite_atomic_multi'])
 
 
+def only_bool_lines_missing(want, snap):
+    """the only difference: measurement lines with a boolean value (True/False) are not there"""
+    if snap is None:
+        return False
+    def is_bool(line):
+        cols = line.split('\t')
+        return len(cols) >= 14 and cols[2] in ('True', 'False')
+    wl = want.split('\n')
+    missing = [l for l in wl if is_bool(l)]
+    return bool(missing) and [l for l in wl if not is_bool(l)] == snap.split('\n')
+
+
 def strip_other(text):
     """the text without damaged data lines: the property does not say what happens to them"""
     if text is None:
@@ -754,7 +790,8 @@ def check_clean(acc, world, exp, tmpdir, model_fn, filters=(), extra=(), fail=()
         return
     old_serials = {}
     for f in world.files:
-        old_serials[f] = set(d['serial'] for d in dd.parse_file(world.old[f]) if d['kind'] in ('meas', 'prof'))
+        old_serials[f] = set(d['serial'] for d in dd.parse_file(world.old[f])
+                             if d['kind'] in ('meas', 'prof') and d['serial'] is not None)
     for f in world.files:
         p = os.path.join(world.scn.wd, f)
         snap = res['snapshots'].get(p)
@@ -965,7 +1002,7 @@ def run(ck):
                     run_case_file(ck, acc, w, idx, tmp_same, tmp_shm)
                     acc.count('corpus:' + fn[:-5])
                     idx += 1
-        n_scn = 8 if quick else 160
+        n_scn = 9 if quick else 160
         n_sel = 8 if quick else 25
         jobs = [(i, gen_params(ck.rng, i, ck.tier), ck.seed, ck.tier, n_sel, ck.scratch, tmp_same, tmp_shm)
                 for i in range(n_scn)]
